@@ -320,8 +320,15 @@ bool Xml::Private::parse(const char* data, Element& element)
         pos.pos = end + 2;
         break;
       }
-      pos.pos = *end == '?' ? end + 1 : end; // a line break is left to skipSpace, which counts it
-      skipSpace();
+      if(*end == '?')
+      {
+        pos.pos = end + 1;
+        continue;
+      }
+      // a line break inside the instruction is counted here: skipSpace would also step over a "<!--" in the instruction, up to the next "-->"
+      pos.pos = end + (*end == '\r' && end[1] == '\n' ? 2 : 1);
+      ++pos.line;
+      pos.lineStart = pos.pos;
     }
     skipSpace();
   }
